@@ -372,3 +372,42 @@ func C14TwoProperties() {
 	}
 	sym.Reach("two-properties-done")
 }
+
+// C14TwoUpdaters: two service goroutines write the same property at the same time (the generated
+// Update<Prop> helper): every interleaving of the two writes, within the delay bound, tells the
+// subscriber one change event per write, each carrying the value of ITS write.
+func C14TwoUpdaters() {
+	sym.Schedules(false)
+	o := zzPropObject(-1 << 31)
+	front := o.front.(*stubObject)
+	h := front.signal
+	h.Activate(Activation{ServiceID: 9, ObjectID: 1})
+	st := newZZStream()
+	ch := NewChannel(net.NewEndPoint(st), DefaultCap())
+	msg := zzFrame(net.Call, 9, 1, 0, 10, zzRegisterPayload(1, zzPropID, 70))
+	sym.Assert(h.RegisterEvent(&msg, ch) == nil, "register-ok")
+	mark := len(st.sentMessages())
+	x, y := sym.I32("first-value"), sym.I32("second-value")
+	done := make(chan bool, 2)
+	sym.Schedules(true)
+	go func() {
+		sym.Assert(o.front.UpdateProperty(zzPropID, "i", zzLE32(uint32(x))) == nil, "update-ok")
+		done <- true
+	}()
+	go func() {
+		sym.Assert(o.front.UpdateProperty(zzPropID, "i", zzLE32(uint32(y))) == nil, "update-ok")
+		done <- true
+	}()
+	<-done
+	<-done
+	sym.Schedules(false)
+	sym.Quiesce()
+	evs := st.sentMessages()[mark:]
+	sym.Assert(len(evs) == 2, "two-updaters/two-accepted-writes-two-events")
+	if len(evs) == 2 {
+		ex, ey := zzLE32(uint32(x)), zzLE32(uint32(y))
+		sym.Assert(sym.Or(sym.And(sym.EqBytes(evs[0].Payload, ex), sym.EqBytes(evs[1].Payload, ey)),
+			sym.And(sym.EqBytes(evs[0].Payload, ey), sym.EqBytes(evs[1].Payload, ex))), "two-updaters/events-carry-the-two-values")
+	}
+	sym.Reach("two-updaters-done")
+}
